@@ -178,7 +178,7 @@ class StdOracle:
             json.dump(self.tables, f)
 
 
-def run_driver(lines, std, max_passes=5):
+def run_driver(lines, std, max_passes=25):
     """Run the Lean driver on the given input lines (dicts). Resolves stdlib table
     misses by querying the oracle and re-running."""
     with tempfile.TemporaryDirectory(prefix="verif-drv-") as td:
